@@ -45,7 +45,11 @@ class ConnectComp(TimeComponent):
             else:
                 self.inputs.add(name=i["name"])
                 if isinstance(i["info"], list):
-                    if i.get("rule_units"):
+                    if i.get("rule_units") and i.get("rule_override"):
+                        # everything is taken over first; later rules overwrite single fields
+                        in_rules[i["name"]] = [FromOutput(i["info"][1]), FromValue("time", self.time),
+                                               FromValue("units", i["rule_units"])]
+                    elif i.get("rule_units"):
                         in_rules[i["name"]] = [FromOutput(i["info"][1], ["grid"]), FromValue("time", self.time),
                                                FromValue("units", i["rule_units"])]
                     elif i.get("rule_form") == "fields":
@@ -64,7 +68,10 @@ class ConnectComp(TimeComponent):
             else:
                 self.outputs.add(name=o["name"])
                 if isinstance(o["info"], list):
-                    if o.get("rule_units"):
+                    if o.get("rule_units") and o.get("rule_override"):
+                        out_rules[o["name"]] = [FromInput(o["info"][1]), FromValue("time", self.time),
+                                                FromValue("units", o["rule_units"])]
+                    elif o.get("rule_units"):
                         out_rules[o["name"]] = [FromInput(o["info"][1], ["grid"]), FromValue("time", self.time),
                                                 FromValue("units", o["rule_units"])]
                     elif o.get("rule_form") == "fields":
